@@ -14,3 +14,5 @@ import JugModel.Props.LoopBridge
 #print axioms Jug.LoopBridge.loop_scans_all
 #print axioms Jug.LoopBridge.loop_fuel_sufficient
 #print axioms Jug.LoopBridge.loop_conforms
+#print axioms Jug.LoopBridge.scanRun_of_workers
+#print axioms Jug.LoopBridge.exec_complete_of_loop_workers
